@@ -18,6 +18,7 @@
 import AHP.Props.C19Code
 import AHP.Lemmas.PyAstParser
 import AHP.Model.Tree
+import AHP.Model.Format
 namespace AHP.C01Code
 open AHP AHP.Gen AHP.Conv AHP.PyAst AHP.Gen.Code AHP.PyAstParser
 
@@ -30,10 +31,18 @@ table. -/
 def tagCx (parseInt : Str → Except PyErr Int) : Ctx :=
   { parseInt := parseInt
     funs := callIn parseInt utils.reverse
-    globals := fun x => if x = "TAG_ITEM_BINARY_ATTRIBUTES" then some (ofMembers binaryAttributes) else none }
+    globals := fun x =>
+      if x = "TAG_ITEM_BINARY_ATTRIBUTES" then some (ofMembers binaryAttributes)
+      else if x = "PREFORMATTED_TAGS" then some (ofMembers preformattedTags)
+      else if x = "PRESERVE_CONTENTS_TAGS" then some (ofMembers preserveContentsTags)
+      else none }
 
 theorem tagCx_binary (parseInt : Str → Except PyErr Int) :
     (tagCx parseInt).globals "TAG_ITEM_BINARY_ATTRIBUTES" = some (ofMembers binaryAttributes) := rfl
+theorem tagCx_pre (parseInt : Str → Except PyErr Int) :
+    (tagCx parseInt).globals "PREFORMATTED_TAGS" = some (ofMembers preformattedTags) := rfl
+theorem tagCx_preserve (parseInt : Str → Except PyErr Int) :
+    (tagCx parseInt).globals "PRESERVE_CONTENTS_TAGS" = some (ofMembers preserveContentsTags) := rfl
 theorem tagCx_tostr (parseInt : Str → Except PyErr Int) : (tagCx parseInt).funs "tostr" = none := rfl
 
 /-- the call `escapeQuotes(val)` inside the method is the tree serialiser's `escQ` -/
@@ -277,6 +286,91 @@ theorem getStartTag_code_eq_startTag (parseInt : Str → Except PyErr Int) (fs :
   refine ⟨getStartTag_code_eq_model parseInt fs indent n sc a.view h1 h2 h3 h4, ?_⟩
   intro h; subst h; rfl
 
+/-! ### `getEndTag` -/
+
+/-- the blocks of an element as the list `self.blocks`: a text block is its text, a child element an `AdvancedTag` -/
+def embB (kids : List Fmt.Node) : List PyV :=
+  kids.map (fun k => match k with | .text _ s => PyV.str s | .elem _ _ _ _ _ _ => PyV.ancestor 0)
+
+theorem embB_append (a b : List Fmt.Node) : embB (a ++ b) = embB a ++ embB b := by simp [embB]
+
+theorem format_close (n : Str) : pyFormat ['<', '/', '%', 's', '>'] [.str n] = .ok (str "</" ++ n ++ str ">") := by
+  simp [pyFormat, tostr, str]
+theorem format_close_indent (i n : Str) :
+    pyFormat ['%', 's', '<', '/', '%', 's', '>'] [.str i, .str n] = .ok (i ++ str "</" ++ n ++ str ">") := by
+  simp [pyFormat, tostr, str]
+
+theorem pyIn_pre (n : Str) : pyIn (.py (.str n)) (ofMembers preformattedTags) = .ok (Fmt.isPre n) := by
+  rw [pyIn_ofMembers, contains_members]; rfl
+theorem pyIn_preserve (n : Str) : pyIn (.py (.str n)) (ofMembers preserveContentsTags) = .ok (Fmt.isPreserve n) := by
+  rw [pyIn_ofMembers, contains_members]; rfl
+
+/-- **The code tie of the end tag.**  `getEndTag(self)` for every tag name, indent, `isSelfClosing` and list of blocks: the text of
+the formatter model's `Fmt.endTag` (nothing for a self-closing element; no indent before the end tag of a preformatted element,
+nor of a `script` / `style` / `pre` / `code` whose last block is a text that already ends with the indent); the object is
+unchanged.  Without indent this is `endTag n sc` of `Model/Tree.lean`. -/
+theorem getEndTag_code_eq_model (parseInt : Str → Except PyErr Int) (fs : List (String × Field)) (indent n : Str) (sc : Bool)
+    (kids : List Fmt.Node)
+    (h2 : fs.lookup "_indent" = some (.py (.str indent))) (h3 : fs.lookup "tagName" = some (.py (.str n)))
+    (h4 : fs.lookup "isSelfClosing" = some (.py (.bool sc))) (h5 : fs.lookup "blocks" = some (.list (embB kids))) :
+    runMeth (tagCx parseInt) AdvancedTag_getEndTag_ast fs []
+      = (some fs, .ok (.py (.str (Fmt.endTag n sc indent kids)))) := by
+  cases sc with
+  | true =>
+    simp [runMeth, AdvancedTag_getEndTag_ast, bindArgs, execL, execS, eval, List.lookup, getAttr, h4, Field.toVal, Lit.toPy,
+      pyCompare, compareB, pyIs, Val.unique, Val.truthy, truthy, PyAst.resultOf, Fmt.endTag]
+  | false =>
+    by_cases hi : indent = []
+    · subst hi
+      simp [runMeth, AdvancedTag_getEndTag_ast, bindArgs, execL, execS, eval, evalList, List.lookup, getAttr, getField, h2, h3, h4,
+        Field.toVal, Lit.toPy, pyCompare, compareB, pyIs, Val.unique, Val.truthy, truthy, assocSet, pyVals, format_close_indent,
+        PyAst.resultOf, Fmt.endTag, str]
+    · have hne : indent.isEmpty = false := by cases indent <;> simp_all
+      by_cases hp : Fmt.isPre n = true
+      · simp [runMeth, AdvancedTag_getEndTag_ast, bindArgs, execL, execS, eval, evalList, List.lookup, getAttr, getField, h2, h3,
+          h4, Field.toVal, Lit.toPy, pyCompare, compareB, pyIs, Val.unique, Val.truthy, truthy, assocSet, pyVals, format_close,
+          PyAst.resultOf, Fmt.endTag, hne, tagCx_pre, pyIn_pre, hp]
+      · have hp' : Fmt.isPre n = false := by simpa using hp
+        by_cases hs : Fmt.isPreserve n = true
+        · rcases List.eq_nil_or_concat kids with hk | ⟨L, b, hk⟩
+          · subst hk
+            simp [runMeth, AdvancedTag_getEndTag_ast, bindArgs, execL, execS, eval, evalList, List.lookup, getAttr, getField, h2,
+              h3, h4, h5, embB, Field.toVal, Lit.toPy, pyCompare, compareB, pyIs, Val.unique, Val.truthy, truthy, assocSet, pyVals,
+              format_close_indent, PyAst.resultOf, Fmt.endTag, hne, tagCx_pre, pyIn_pre, hp', tagCx_preserve, pyIn_preserve, hs,
+              Fmt.lastTextEndsWith, Fmt.endsWith]
+          · subst hk
+            have hb : (embB (L ++ [b])).isEmpty = false := by simp [embB]
+            cases b with
+            | text vb t =>
+              have hlast : seqItem (embB (L ++ [Fmt.Node.text vb t])) (-1) = some (.str t) := by
+                rw [embB_append]; exact seqItem_last _ _
+              by_cases he : indent <:+ t
+              · simp [runMeth, AdvancedTag_getEndTag_ast, bindArgs, execL, execS, eval, evalList, List.lookup, getAttr, getField,
+                  h2, h3, h4, h5, hb, Field.toVal, Lit.toPy, pyCompare, compareB, pyIs, Val.unique, Val.truthy, truthy, assocSet,
+                  pyVals, format_close, PyAst.resultOf, Fmt.endTag, hne, tagCx_pre, pyIn_pre, hp', tagCx_preserve,
+                  pyIn_preserve, hs, Fmt.lastTextEndsWith, Fmt.endsWith, pyIndex, hlast, aliasOK, Val.mutable, typeName,
+                  callMethod, he]
+              · simp [runMeth, AdvancedTag_getEndTag_ast, bindArgs, execL, execS, eval, evalList, List.lookup, getAttr, getField,
+                  h2, h3, h4, h5, hb, Field.toVal, Lit.toPy, pyCompare, compareB, pyIs, Val.unique, Val.truthy, truthy, assocSet,
+                  pyVals, format_close_indent, PyAst.resultOf, Fmt.endTag, hne, tagCx_pre, pyIn_pre, hp', tagCx_preserve,
+                  pyIn_preserve, hs, Fmt.lastTextEndsWith, Fmt.endsWith, pyIndex, hlast, aliasOK, Val.mutable, typeName,
+                  callMethod, he]
+            | elem kd nm st sc' ind ks =>
+              have hlast : seqItem (embB (L ++ [Fmt.Node.elem kd nm st sc' ind ks])) (-1) = some (.ancestor 0) := by
+                rw [embB_append]; exact seqItem_last _ _
+              simp [runMeth, AdvancedTag_getEndTag_ast, bindArgs, execL, execS, eval, evalList, List.lookup, getAttr, getField,
+                h2, h3, h4, h5, hb, Field.toVal, Lit.toPy, pyCompare, compareB, pyIs, Val.unique, Val.truthy, truthy, assocSet,
+                pyVals, format_close_indent, PyAst.resultOf, Fmt.endTag, hne, tagCx_pre, pyIn_pre, hp', tagCx_preserve,
+                pyIn_preserve, hs, Fmt.lastTextEndsWith, Fmt.endsWith, pyIndex, hlast, aliasOK, Val.mutable, typeName]
+        · have hs' : Fmt.isPreserve n = false := by simpa using hs
+          simp [runMeth, AdvancedTag_getEndTag_ast, bindArgs, execL, execS, eval, evalList, List.lookup, getAttr, getField, h2, h3,
+            h4, Field.toVal, Lit.toPy, pyCompare, compareB, pyIs, Val.unique, Val.truthy, truthy, assocSet, pyVals,
+            format_close_indent, PyAst.resultOf, Fmt.endTag, hne, tagCx_pre, pyIn_pre, hp', tagCx_preserve, pyIn_preserve, hs']
+
+/-- without indent the formatter model's end tag is the tree serialiser's `endTag` (the end tag of `Node.html`) -/
+theorem endTag_no_indent (n : Str) (sc : Bool) (kids : List Fmt.Node) : Fmt.endTag n sc [] kids = endTag n sc := by
+  cases sc <;> simp [Fmt.endTag, endTag, str]
+
 /-! ### the theorems are not vacuous, and the interpreter runs the dump -/
 
 -- A small budget, so that a broken example fails at once instead of searching; `decide +kernel` evaluates in the kernel and
@@ -310,5 +404,25 @@ example : (runMeth (tagCx pI) AdvancedTag_getStartTag_ast
 /-- fail closed: an object without `_attributes` is an `AttributeError`, never a text -/
 example : (runMeth (tagCx pI) AdvancedTag_getStartTag_ast [("tagName", .py (.str "a".toList))] []).2
     = .error (.other "AttributeError") := by decide +kernel
+
+private def endObj (indent n : String) (sc : Bool) (blocks : List PyV) : List (String × Field) :=
+  [("tagName", .py (.str n.toList)), ("isSelfClosing", .py (.bool sc)), ("_indent", .py (.str indent.toList)),
+   ("blocks", .list blocks)]
+
+/-- `getEndTag`: plain; self-closing; a preformatted element keeps its end tag unindented; a `script` whose last text already
+ends with the indent; the same with a child element last; an ordinary element is indented -/
+example : (runMeth (tagCx pI) AdvancedTag_getEndTag_ast (endObj "" "div" false [.str "x".toList]) []).2
+      = .ok (.py (.str "</div>".toList))
+    ∧ (runMeth (tagCx pI) AdvancedTag_getEndTag_ast (endObj "  " "br" true []) []).2 = .ok (.py (.str []))
+    ∧ (runMeth (tagCx pI) AdvancedTag_getEndTag_ast (endObj "  " "pre" false [.str "x".toList]) []).2
+      = .ok (.py (.str "</pre>".toList))
+    ∧ (runMeth (tagCx pI) AdvancedTag_getEndTag_ast (endObj "  " "script" false [.str "a;\n  ".toList]) []).2
+      = .ok (.py (.str "</script>".toList))
+    ∧ (runMeth (tagCx pI) AdvancedTag_getEndTag_ast (endObj "  " "script" false [.str "a;".toList, .ancestor 3]) []).2
+      = .ok (.py (.str "  </script>".toList))
+    ∧ (runMeth (tagCx pI) AdvancedTag_getEndTag_ast (endObj "  " "div" false [.str "x  ".toList]) []).2
+      = .ok (.py (.str "  </div>".toList)) := by decide +kernel
+/-- the formatter model on the `script` case -/
+example : Fmt.endTag "script".toList false "  ".toList [.text false "a;\n  ".toList] = "</script>".toList := by decide +kernel
 
 end AHP.C01Code
